@@ -604,8 +604,27 @@ def directive(rng, kind, depth=0):
     return "\n".join(lines) + rng.choice(["\n", "\n", "", "\n\n"])
 
 
+def dir_list_break(rng, kind):
+    """a list item followed by a (possibly too short) directive fence at the margin: `_parse_list_item` has `fenced_directive` among its break
+    rules when the rule is registered, with the first "3" of its pattern (the fence-length quantifier) replaced by the leading width"""
+    c = ":" if kind == "fenced-colon" else rng.choice("`~:")
+    bullet = rng.choice(["- ", "-", "* ", "+ ", "1. ", "1.", "12. ", " - ", "  - ", "   - ", "1) "])
+    first = rng.choice(["a", "", "a b", "[x]"])
+    n = rng.choice([1, 1, 2, 2, 3, 4])
+    name = rng.choice(DIR_NAMES)
+    lead = rng.choice(["", "", "", " ", "  "])
+    lines = [bullet + first] + (["  more"] if rng.random() < 0.2 else []) + [lead + c * n + "{" + name + "}" + rng.choice(["", " T", " " + rng.choice(DIR_TITLES)])]
+    lines += _dir_option_lines(rng)[:2] + rng.choice([[], ["body"], ["", "body"], ["- b"]])
+    close = rng.choice([c * n, c * n, c * (n + 1), None, c * 3, c])
+    if close is not None:
+        lines.append(close)
+    return "\n".join(lines) + rng.choice(["\n", "\n", ""])
+
+
 def md_directives(rng, kind):
     """one or two directives of the syntax, optionally between token-level lines, inside a container, or whitespace-mutated"""
+    if kind != "rst" and rng.random() < 0.1:
+        return dir_list_break(rng, kind)
     pieces = []
     for _ in range(rng.choice([1, 1, 1, 2])):
         pieces.append(directive(rng, kind) if rng.random() < 0.85 else md_doc(rng, 2, 4))
